@@ -1,0 +1,29 @@
+//go:build verif
+
+package sequtils
+
+import (
+	"github.com/biogo/biogo/seq/linear"
+)
+
+// Contracts for the deductive verifier in /verif (govc). Only compiled with -tags verif.
+//
+// Truncate and Join are generic over interfaces; they are verified through clients that fix the
+// concrete sequence type (*linear.Seq). The verifier resolves every interface call inside the real
+// Truncate/Join body statically and inlines it, so what is proved is the real code specialised
+// to that type.
+
+//@ func verifLemmaTruncateLinear
+//@   property C06
+//@   lemma
+//@   requires src != nil && dst != nil
+//@   ensures [error-iff] (result != nil) <==> !(start >= old(src.Offset) && end <= old(src.Offset) + old(len(src.Seq)) && (start <= end || (old(src.Conform) != 0 && end >= old(src.Offset) && start <= old(src.Offset) + old(len(src.Seq)))))
+//@   ensures [linear]    result == nil && start <= end ==> len(dst.Seq) == end - start && dst.Offset == start && dst.Conform == 0 && forall k int :: 0 <= k && k < end - start ==> dst.Seq[k] == old(src.Seq[start - src.Offset + k])
+//@   ensures [circular-head] result == nil && start > end ==> len(dst.Seq) == old(len(src.Seq)) - (start - old(src.Offset)) + (end - old(src.Offset)) && dst.Offset == start && dst.Conform == 0
+//@   ensures [circular-a] result == nil && start > end ==> forall k int :: 0 <= k && k < old(len(src.Seq)) - (start - old(src.Offset)) ==> dst.Seq[k] == old(src.Seq[start - src.Offset + k])
+//@   ensures [circular-b] result == nil && start > end ==> forall k int :: 0 <= k && k < end - old(src.Offset) ==> dst.Seq[old(len(src.Seq)) - (start - old(src.Offset)) + k] == old(src.Seq[k])
+//@   ensures [independent] result == nil && dst != src ==> (fresh(dst.Seq) || len(dst.Seq) == 0) && src.Seq == old(src.Seq) && src.Offset == old(src.Offset) && forall k int :: 0 <= k && k < len(src.Seq) ==> src.Seq[k] == old(src.Seq[k])
+//@   ensures [rejected]  result != nil ==> dst.Seq == old(dst.Seq) && dst.Offset == old(dst.Offset) && src.Seq == old(src.Seq)
+func verifLemmaTruncateLinear(dst, src *linear.Seq, start, end int) error {
+	return Truncate(dst, src, start, end)
+}
